@@ -313,12 +313,16 @@ fn gen_cfg(rng: &mut Rng, dir: &std::path::Path, thorough: bool) -> SchedCfg {
         pre.push(w(rng));
     }
     // controlled part: groups of operations; one park of the logging thread in front of each
-    let groups = if thorough { rng.range(2, 5) } else { rng.range(2, 4) } as usize;
+    // (a third of the configurations of the quick tier has room for three rotations as well: the
+    // cleanup thread can then be two requests behind when the third rotation lands)
+    let deep = thorough || rng.chance(1, 3);
+    let groups = if deep { rng.range(2, 5) } else { rng.range(2, 4) } as usize;
+    let max_rotations = if deep { 3 } else { 2 };
     let mut script = Vec::new();
     let mut rotations = 0;
     for g in 0..groups {
         let mut group = Vec::new();
-        let want_rotation = rotations < if thorough { 3 } else { 2 } && (g == 0 || rng.chance(2, 3));
+        let want_rotation = rotations < max_rotations && (g == 0 || rng.chance(2, 3));
         if want_rotation {
             group.push(adv(rng));
             if small {
@@ -355,7 +359,7 @@ pub fn run_case(ctx: &mut CaseCtx) -> CaseResult {
         cfg.crit.as_ref().map(Crit::label).unwrap_or_default()
     );
     let mut res = CaseResult::new(shape.clone());
-    let (cap, extra, box_s) = if ctx.thorough && ctx.shard >= 8 { (4000usize, 600usize, 15.0) } else { (200usize, 50usize, 1.0) };
+    let (cap, extra, box_s) = if ctx.thorough && ctx.shard >= 8 { (4000usize, 600usize, 15.0) } else { (120usize, 130usize, 0.7) };
     let started = Instant::now();
     let mut executed = 0usize;
     let mut exhausted = false;
@@ -446,16 +450,21 @@ pub fn run_case(ctx: &mut CaseCtx) -> CaseResult {
         while random_done < extra && started.elapsed().as_secs_f64() < box_s * 1.5 {
             let d = ctx.dir.join(format!("s{n_exec_dir}"));
             n_exec_dir += 1;
-            // bias: stretches of one thread, so that late cleanup steps meet early rotation steps
-            let mut bias = r.below(3);
+            // few context switches (in the spirit of bounded preemption): the threads take turns in
+            // phases of random length - "the cleanup thread falls behind, works a little, another
+            // rotation lands, it goes on" is a handful of phases, but a needle for uniform choices
+            let mut run_l = r.chance(2, 3);
+            let mut left = 1 + r.usize(if run_l { 10 } else { 6 });
             let o = exec(&sc, &d, &mut |_, n| {
-                if r.chance(1, 6) {
-                    bias = r.below(3);
+                if left == 0 {
+                    run_l = !run_l;
+                    left = 1 + r.usize(if run_l { 10 } else { 6 });
                 }
-                match bias {
-                    0 => 0,
-                    1 => n - 1,
-                    _ => r.usize(n),
+                left -= 1;
+                if run_l {
+                    0
+                } else {
+                    n - 1
                 }
             });
             let _ = std::fs::remove_dir_all(&d);
